@@ -620,3 +620,43 @@ def grpc_status_in_headers_too(chk, P, key):
             ev += [c.loc for c in reads]
         return True, "", ev
     chk.ob(key, "the gRPC response handler reads grpc-status from the response headers as well as from the trailers", f)
+
+
+def every_handler_checks_http_status(chk, P, key):
+    """Both response handlers of the OTLP transport - plain HTTP and gRPC - decide on the HTTP status before anything else counts as an acknowledgement:
+    each reads `http_status()` and reaches `Ok` only on the 2xx side of a comparison of it.  A gRPC answer without a 2xx status comes from something
+    in between (a proxy, a load balancer): it has no grpc-status at all, so a handler that only looks at that counts it as delivered."""
+    def f():
+        handlers = []
+        for k, b in sorted(P.bodies.items()):
+            if b.crate != "emit_otlp" or "OtlpTransportBuilder" not in k or "::build::" not in k:
+                continue
+            rets_ok = [1 for bb, j, st in b.statements(normal_only=True) if st["k"] == "assign" and st["rv"]["k"] == "agg" and st["rv"].get("variant") == "Ok"
+                       and "p" not in st["place"] and st["place"]["l"] == 0]
+            takes_res = any("HttpResponse" in (b.local_ty(i) or "") for i in range(1, b.argc + 1)) or \
+                any("HttpResponse" in o_str(o) for o in [])
+            uses_res = any(c.callee.get("name") in ("http_status", "stream_payload", "header") for c in b.calls(normal_only=True))
+            if uses_res and rets_ok:
+                handlers.append(b)
+        if len(handlers) < 2:
+            raise mir.AnchorMissing("the HTTP and gRPC response handlers of OtlpTransportBuilder::build (found %d)" % len(handlers))
+        ev = []
+        for h in handlers:
+            hs = [c for c in h.calls(normal_only=True) if c.callee.get("name") == "http_status"]
+            if not hs:
+                return False, ("%s acknowledges a request without looking at the HTTP status of the response: an error answered by a proxy in front of the collector "
+                               "(`:status: 500`, no grpc-status) counts as delivered and is never sent again" % h.key), [], h.span
+            # every Ok return is on the in-range side of a comparison of that status
+            oks = [bb for bb, j, st in h.statements(normal_only=True) if st["k"] == "assign" and st["rv"]["k"] == "agg" and st["rv"].get("variant") == "Ok"
+                   and "p" not in st["place"] and st["place"]["l"] == 0]
+            for ob in oks:
+                guarded = False
+                for g, vals, tgt in h.guards_of(ob):
+                    so, pos = mir.norm_bool(h.switch_origin(g))
+                    if "http_status" in o_str(so):
+                        guarded = True
+                if not guarded:
+                    return False, "%s can acknowledge a request on a path that does not depend on the HTTP status" % h.key, [], h.span
+            ev.append(hs[0].loc)
+        return True, "", ev
+    chk.ob(key, "every response handler of the OTLP transport acknowledges a request only on the 2xx side of a test of its HTTP status", f)
